@@ -5,6 +5,7 @@ import (
 	"errors"
 	"fmt"
 	"github.com/openconfig/gnmi/proto/gnmi_ext"
+	"math"
 	"runtime"
 	"runtime/debug"
 	"slices"
@@ -41,6 +42,7 @@ type stats struct {
 	aclFlipped, oddTargetNames, updatesOnlyRound, atomicTwist                                  bool
 	foreignWrite, foreignDeniedStored, pollFlood, pollFloodBig, pollFloodLeftStalled           bool
 	dressed, malformedFirst, twinPaths, streamHalfClosed                                       bool
+	nearValue, nearFine                                                                        bool
 	valueKinds                                                                                 map[string]bool
 	skippedSteps, maxBulk, maxOnceLeaves                                                       int
 }
@@ -104,6 +106,8 @@ func (s *stats) labels() []string {
 	add(s.pollFloodBig, "poll-triggers-while-stalled>=5")
 	add(s.pollFloodLeftStalled, "poll-client-left-stalled-after-triggers")
 	add(s.dressed, "request-dressed-with-unimplemented-fields")
+	add(s.nearValue, "update-carrying-the-smallest-change-of-the-stored-value")
+	add(s.nearFine, "smallest-change-of-a-decimal-beyond-float32-precision")
 	add(s.streamHalfClosed, "stream-client-half-closed-its-sending-side")
 	add(s.malformedFirst, "first-message-is-not-a-subscription-request")
 	add(s.twinPaths, "paths-of-one-request-that-read-the-same-when-joined")
@@ -348,7 +352,7 @@ type world struct {
 	st        stats
 	fail      *failure
 	stored    map[*pb.Notification]*pb.Notification // stored notification object -> its content when first seen at a quiescent point
-	foreign   bool // a writer stored a notification through another target's entry point (WOp.Via)
+	foreign   bool                                  // a writer stored a notification through another target's entry point (WOp.Via)
 }
 
 func (w *world) failf(prop, format string, a ...any) {
@@ -695,7 +699,14 @@ func (w *world) buildNoti(op *WOp) *pb.Notification {
 			w.st.valueKinds = map[string]bool{}
 		}
 		w.st.valueKinds[u.Val.Kind] = true
-		n.Update = append(n.Update, gn.MakeUpdate(w.wpath(op, p), u.Val))
+		upd := gn.MakeUpdate(w.wpath(op, p), u.Val)
+		if i == 0 && first != nil && op.Near {
+			if nv := w.nearStored(name, first); nv != nil {
+				upd.Val, upd.Value = nv, nil
+				w.st.nearValue = true
+			}
+		}
+		n.Update = append(n.Update, upd)
 	}
 	if op.Atomic {
 		ak := name + "|" + origin + "|" + gn.Key(gn.IndexOfElems(prefix, false))
@@ -735,6 +746,41 @@ func (w *world) buildNoti(op *WOp) *pb.Notification {
 		n.Delete = append(n.Delete, w.wpath(op, p))
 	}
 	return n
+}
+
+// nearStored returns the smallest change of the value stored at the leaf (nil if there is none to derive).
+func (w *world) nearStored(name string, leaf []gn.Elem) *pb.TypedValue {
+	var p []string
+	for _, e := range leaf {
+		p = append(p, e.Name)
+	}
+	var cur *pb.TypedValue
+	w.c.Query(name, p, func(_ []string, _ *ctree.Leaf, v interface{}) error {
+		if nt, ok := v.(*pb.Notification); ok && !nt.GetAtomic() && len(nt.GetUpdate()) == 1 {
+			cur = nt.Update[0].GetVal()
+		}
+		return nil
+	})
+	switch x := cur.GetValue().(type) {
+	case *pb.TypedValue_IntVal:
+		return &pb.TypedValue{Value: &pb.TypedValue_IntVal{IntVal: x.IntVal + 1}}
+	case *pb.TypedValue_UintVal:
+		return &pb.TypedValue{Value: &pb.TypedValue_UintVal{UintVal: x.UintVal + 1}}
+	case *pb.TypedValue_DecimalVal:
+		if d := x.DecimalVal.GetDigits(); d >= 1<<24 || d <= -(1<<24) {
+			w.st.nearFine = true
+		}
+		return &pb.TypedValue{Value: &pb.TypedValue_DecimalVal{DecimalVal: &pb.Decimal64{Digits: x.DecimalVal.GetDigits() + 1, Precision: x.DecimalVal.GetPrecision()}}}
+	case *pb.TypedValue_DoubleVal:
+		return &pb.TypedValue{Value: &pb.TypedValue_DoubleVal{DoubleVal: math.Nextafter(x.DoubleVal, math.Inf(1))}}
+	case *pb.TypedValue_FloatVal:
+		return &pb.TypedValue{Value: &pb.TypedValue_FloatVal{FloatVal: math.Nextafter32(x.FloatVal, float32(math.Inf(1)))}}
+	case *pb.TypedValue_StringVal:
+		return &pb.TypedValue{Value: &pb.TypedValue_StringVal{StringVal: x.StringVal + "x"}}
+	case *pb.TypedValue_BoolVal:
+		return &pb.TypedValue{Value: &pb.TypedValue_BoolVal{BoolVal: !x.BoolVal}}
+	}
+	return nil
 }
 
 // wpath builds an update/delete path of a writer notification in the encoding op.Enc asks for.
